@@ -403,7 +403,7 @@ def _check_attributes(
     return errors
 
 
-def gather_default_attributes(obj, defaults):
+def gather_default_attributes(obj, defaults, back_end=None):
     """Gathers default attributes for an IR object.
 
     This is designed to be able to be used as-is as an incidental action in an
@@ -411,6 +411,10 @@ def gather_default_attributes(obj, defaults):
 
     Arguments:
         defaults: A dict of `{ "defaults": { attr.name.text: attr } }`
+        back_end: The qualifier of the attributes to gather (such as `cpp` for
+            `[(cpp) $default enum_case: "kCamelCase"]`), or None to gather
+            unqualified attributes.  Attributes with a different qualifier are
+            someone else's defaults, and are left alone.
 
     Returns:
         A dict of `{ "defaults": { attr.name.text: attr } }` with any defaults
@@ -418,6 +422,8 @@ def gather_default_attributes(obj, defaults):
     """
     defaults = defaults.copy()
     for attr in obj.attribute:
+        if (ir_data_utils.reader(attr).back_end.text or None) != (back_end or None):
+            continue
         if attr.is_default:
             defaulted_attr = ir_data_utils.copy(attr)
             defaulted_attr.is_default = False
